@@ -699,6 +699,26 @@ class Flow:
             return "EkPath"
         return kind or "EkUnknown"
 
+    def server_url_norm(self):
+        """the closure HttpSymbolSupplier::new maps over its `urls` argument, as normalised text"""
+        cands = [f for f in self.fns if f.label == "http.rs" and f.name == "new" and any(pn == "urls" for pn, _ in f.params)]
+        if len(cands) != 1:
+            return "UnUnknown", "no unique fn new(urls, ..) in http.rs"
+        body = cands[0].body()
+        m = re.search(r"\blet\s+urls\s*=\s*urls\b", body)
+        if not m:
+            return "UnUnknown", "no `let urls = urls...;` in HttpSymbolSupplier::new"
+        j, depth = m.end(), 0
+        while j < len(body) and not (body[j] == ";" and depth == 0):
+            if body[j] in "([{":
+                depth += 1
+            elif body[j] in ")]}":
+                depth -= 1
+            j += 1
+        text = norm(body[m.end():j])
+        want = ".into_iter().filter_map(|mutu|{if!u.ends_with('/'){u.push('/');}Url::parse(&u).ok()}).collect()"
+        return ("UnAppendSlash" if text == want else "UnUnknown"), text[:300]
+
     def sites(self):
         out = []
         for label, src in self.srcs.items():
@@ -786,6 +806,11 @@ def main():
           "   with the kind of its receiver *)", "Definition g_path_edits : list g_edit := ["]
     o.append(";\n".join('  {| e_file := "%s"; e_fn := "%s"; e_text := "%s"; e_kind := %s |}' % (a, b, c.replace('"', '""'), k) for a, b, c, k in edits))
     o.append("].")
+    # HttpSymbolSupplier::new: what is done to a server URL before Url::parse
+    norm_kind, norm_text = fl.server_url_norm()
+    o += ["", "(* http.rs HttpSymbolSupplier::new: the closure applied to every server URL string *)",
+          'Definition g_server_url_norm_text : string := "%s".' % norm_text.replace('"', '""'),
+          "Definition g_server_url_norm : g_url_norm := %s." % norm_kind]
     o += ["", "(* the same table without Coq strings (fn name as bytes), for the extracted driver *)",
           "Definition g_flow_table : list (list Z * g_root * g_arg) := ["]
     o.append(";\n".join("  ([%s]%%Z, %s, %s)   (* %s *)" % ("; ".join(str(x) for x in b.encode()), strip(r), strip(g), b) for a, b, c, r, g in sites))
